@@ -13,7 +13,8 @@
 //!
 //! Output of `run`, one record per input record:
 //!   {"i": index, "ran": bool, "obs": [{"q": query, "id": n, "kind": "panic"|"hang"|"crash", "msg": ..}],
-//!    "res": {"outl","toc": tag; "deref","nd","img","rsrc": [tag per object]; "cont": [[ids] per object]}}
+//!    "res": {"outl","toc": tag; "pages": {t, ids}; "deref","nd","img": [tag per object];
+//!            "rsrc","cont": [{t, ids} per object]}}   (tag = ok | err | na | panic | hang | crash)
 //! obs lists every call that did NOT return a value or an error (the property's oracle).
 use lopdf::{Dictionary, Document, Object, ObjectId, Stream, StringFormat};
 use lopdf_conform::{guard::guarded, io::*, rng::Rng, sup};
@@ -189,7 +190,7 @@ fn run_query(doc: &Document, q: &str, id: u32) -> Value {
     let n = doc.objects.len() as u32;
     match q {
         "catalog" => json!(tag(&doc.catalog())),
-        "get_pages" => json!(doc.get_pages().values().map(|p| p.0).collect::<Vec<_>>()),
+        "get_pages" => json!({"t": "ok", "ids": doc.get_pages().values().map(|p| p.0).collect::<Vec<_>>()}),
         "page_iter" => json!(doc.page_iter().map(|p| p.0).collect::<Vec<_>>()),
         "get_outlines" => {
             let mut nd = Default::default();
@@ -292,7 +293,7 @@ fn run_query(doc: &Document, q: &str, id: u32) -> Value {
 
 /// A bare tag ("na", "panic", "hang", "crash") in the shape of the slot it goes into.
 fn shaped(slot: &str, t: &str) -> Value {
-    if slot == "rsrc" || slot == "cont" {
+    if slot == "rsrc" || slot == "cont" || slot == "pages" {
         json!({"t": t, "ids": []})
     } else {
         json!(t)
@@ -300,7 +301,7 @@ fn shaped(slot: &str, t: &str) -> Value {
 }
 
 fn empty_res(n: u32) -> Value {
-    let mut m = json!({"outl": "na", "toc": "na"});
+    let mut m = json!({"outl": "na", "toc": "na", "pages": {"t": "na", "ids": []}});
     for slot in ["deref", "nd", "img", "rsrc", "cont"] {
         m[slot] = Value::Array((0..n).map(|_| shaped(slot, "na")).collect());
     }
@@ -345,6 +346,7 @@ fn slot_of(q: &str) -> Option<&'static str> {
     match q {
         "get_outlines" => Some("outl"),
         "get_toc" => Some("toc"),
+        "get_pages" => Some("pages"),
         "dereference" => Some("deref"),
         "get_named_destinations" => Some("nd"),
         "get_page_images" => Some("img"),
@@ -355,7 +357,7 @@ fn slot_of(q: &str) -> Option<&'static str> {
 }
 
 fn put(res: &mut Value, slot: &str, id: u32, n: u32, val: Value) {
-    if slot == "outl" || slot == "toc" {
+    if slot == "outl" || slot == "toc" || slot == "pages" {
         res[slot] = val;
     } else if id >= 1 && id <= n {
         res[slot][id as usize - 1] = val;
@@ -410,9 +412,26 @@ fn run(args: &[String]) {
             cases1.push(json!({"doc": r["doc"]}).to_string());
         }
     }
-    let res1 = sup::run_cases(&exe, &wargs, &cases1, timeout, mem);
+    // Budget: unpredicted hangs cost a time limit each.  Pass 1 runs in batches and stops executing once
+    // MAX_LOST_HANGS documents were lost to a hang (the rest is reported as not run); pass 2 attributes only the
+    // first few lost documents to single queries, the others are reported unattributed (q = "all").
+    const BATCH: usize = 200;
+    const MAX_LOST_HANGS: usize = 6;
+    const ATTR_HANG_DOCS: usize = 3;
+    const ATTR_CRASH_DOCS: usize = 40;
+    let mut res1: Vec<sup::Outcome> = vec![];
+    let mut lost_hangs = 0;
+    for chunk in cases1.chunks(BATCH) {
+        if lost_hangs >= MAX_LOST_HANGS {
+            break;
+        }
+        let r = sup::run_cases(&exe, &wargs, chunk, timeout, mem);
+        lost_hangs += r.iter().filter(|o| matches!(o, sup::Outcome::Hang)).count();
+        res1.extend(r);
+    }
     let mut answers: Vec<Option<Value>> = vec![None; recs.len()];
     let mut need_singles: Vec<usize> = vec![];
+    let (mut attr_h, mut attr_c) = (0, 0);
     for (k, o) in res1.iter().enumerate() {
         let i = idx1[k];
         match o {
@@ -424,7 +443,23 @@ fn run(args: &[String]) {
                 }
                 answers[i] = Some(v);
             }
-            _ => need_singles.push(i),
+            other => {
+                let (kind, msg) = outcome_kind(other).unwrap();
+                let within = if kind == "hang" {
+                    attr_h += 1;
+                    attr_h <= ATTR_HANG_DOCS
+                } else {
+                    attr_c += 1;
+                    attr_c <= ATTR_CRASH_DOCS
+                };
+                if within {
+                    need_singles.push(i);
+                } else {
+                    let n = recs[i]["doc"]["objs"].as_array().map(|a| a.len()).unwrap_or(0) as u32;
+                    answers[i] = Some(json!({"obs": [{"q": "all", "id": 0, "kind": kind,
+                        "msg": format!("whole-document run lost ({msg}); not attributed to a query (budget)")}], "res": empty_res(n)}));
+                }
+            }
         }
     }
     for (i, r) in recs.iter().enumerate() {
@@ -441,7 +476,18 @@ fn run(args: &[String]) {
         let expect_hang = r.get("expect_hang").and_then(Value::as_bool).unwrap_or(false);
         let pl = plan(n);
         let cases: Vec<String> = pl.iter().map(|(q, id)| json!({"doc": r["doc"], "only": [q, id]}).to_string()).collect();
-        let res = sup::run_cases(&exe, &wargs, &cases, timeout, mem);
+        // singles run in small groups; an unpredicted document stops after 2 hanging queries, a predicted one after 4
+        let max_hangs = if expect_hang { 4 } else { 2 };
+        let mut res: Vec<sup::Outcome> = vec![];
+        let mut hangs = 0;
+        for chunk in cases.chunks(4) {
+            if hangs >= max_hangs {
+                break;
+            }
+            let r = sup::run_cases(&exe, &wargs, chunk, timeout, mem);
+            hangs += r.iter().filter(|o| matches!(o, sup::Outcome::Hang)).count();
+            res.extend(r);
+        }
         let mut obs = vec![];
         let mut merged = empty_res(n);
         for (k, o) in res.iter().enumerate() {
@@ -455,7 +501,7 @@ fn run(args: &[String]) {
                     }
                     if let Some(sl) = slot {
                         let rv = &v["res"][sl];
-                        let val = if sl == "outl" || sl == "toc" {
+                        let val = if sl == "outl" || sl == "toc" || sl == "pages" {
                             rv.clone()
                         } else if id >= 1 && id <= n {
                             rv[id as usize - 1].clone()
@@ -493,7 +539,20 @@ fn run(args: &[String]) {
                 None => ("crash", String::new()),
             };
             if !r.get("singles").and_then(Value::as_bool).unwrap_or(false) {
-                obs.push(json!({"q": "all", "id": 0, "kind": kind, "msg": format!("not reproduced by single queries: {msg}")}));
+                // try the whole document once more with three times the limit: only a reproduced loss is data
+                let whole = vec![json!({"doc": r["doc"]}).to_string()];
+                let again = sup::run_cases(&exe, &wargs, &whole, timeout * 3, mem);
+                match &again[0] {
+                    sup::Outcome::Line(l) => {
+                        answers[i] = Some(serde_json::from_str(l).expect("worker line"));
+                        continue;
+                    }
+                    other => {
+                        let (k2, m2) = outcome_kind(other).unwrap();
+                        obs.push(json!({"q": "all", "id": 0, "kind": k2,
+                            "msg": format!("whole-document run lost twice ({kind}: {msg}; {k2}: {m2}), no single query reproduces it")}));
+                    }
+                }
             }
         }
         answers[i] = Some(json!({"obs": obs, "res": merged}));
@@ -547,6 +606,7 @@ fn rand_val(rng: &mut Rng, key: &str, n: usize, me: usize, depth: u32) -> Value 
         3..=4 => mk("bool", rng.below(2) as i64, "", vec![], vec![]),
         5..=6 => mk("int", -1 - rng.below(3) as i64, "", vec![], vec![]),
         7..=8 => mk("int", 0, "", vec![], vec![]),
+        9..=12 if key == "Count" && rng.chance(1, 4) => mk("int", BIG + rng.below(2) as i64, "", vec![], vec![]),
         9..=12 => mk("int", 1 + rng.below(300) as i64, "", vec![], vec![]),
         13 => mk("int", if rng.chance(1, 2) { BIG } else { -BIG }, "", vec![], vec![]),
         14..=15 => mk("real", rng.below(2) as i64, "", vec![], vec![]),
@@ -640,13 +700,100 @@ fn rand_doc(rng: &mut Rng) -> Value {
     json!({"objs": objs, "root": root})
 }
 
+fn v_ref(n: i64) -> Value {
+    mk("ref", n, "", vec![], vec![])
+}
+fn v_name(s: &str) -> Value {
+    mk("name", 0, s, vec![], vec![])
+}
+fn v_int(n: i64) -> Value {
+    mk("int", n, "", vec![], vec![])
+}
+fn v_str(s: &str) -> Value {
+    mk("str", 0, s, vec![], vec![])
+}
+fn v_arr(e: Vec<Value>) -> Value {
+    mk("arr", 0, "", e, vec![])
+}
+fn v_dict(d: Vec<(&str, Value)>) -> Value {
+    mk("dict", 0, "", vec![], d.into_iter().map(|(k, v)| json!([k, v])).collect())
+}
+fn v_stream(d: Vec<(&str, Value)>, s: &str) -> Value {
+    mk("stream", 0, s, vec![], d.into_iter().map(|(k, v)| json!([k, v])).collect())
+}
+
+/// A small well-formed document (12 objects) that reaches every query's deep code ...
+fn skeleton() -> Vec<Value> {
+    vec![
+        /* 1 */ v_dict(vec![("Type", v_name("Catalog")), ("Pages", v_ref(2)), ("Outlines", v_ref(7)), ("Names", v_dict(vec![("Dests", v_ref(10))]))]),
+        /* 2 */ v_dict(vec![("Type", v_name("Pages")), ("Kids", v_arr(vec![v_ref(3)])), ("Count", v_int(1)), ("Resources", v_ref(12))]),
+        /* 3 */ v_dict(vec![("Type", v_name("Page")), ("Parent", v_ref(2)), ("Contents", v_ref(4)), ("Annots", v_arr(vec![v_ref(11)])),
+                            ("Resources", v_dict(vec![("Font", v_dict(vec![("F1", v_ref(5))])), ("XObject", v_dict(vec![("Im1", v_ref(6))]))]))]),
+        /* 4 */ v_stream(vec![], "text"),
+        /* 5 */ v_dict(vec![("Type", v_name("Font")), ("Subtype", v_name("Type1")), ("Encoding", v_name("WinAnsiEncoding"))]),
+        /* 6 */ v_stream(vec![("Type", v_name("XObject")), ("Subtype", v_name("Image")), ("Width", v_int(2)), ("Height", v_int(2)),
+                              ("ColorSpace", v_name("DeviceRGB")), ("BitsPerComponent", v_int(8))], "junk"),
+        /* 7 */ v_dict(vec![("Type", v_name("Outlines")), ("First", v_ref(8)), ("Count", v_int(2))]),
+        /* 8 */ v_dict(vec![("Title", v_str("a")), ("Dest", v_arr(vec![v_ref(3), v_name("Fit")])), ("Next", v_ref(9)), ("Parent", v_ref(7))]),
+        /* 9 */ v_dict(vec![("Title", v_str("BE+2")), ("A", v_dict(vec![("S", v_name("GoTo")), ("D", v_str("t"))])), ("Parent", v_ref(7))]),
+        /* 10 */ v_dict(vec![("Names", v_arr(vec![v_str("t"), v_ref(11)])), ("Kids", v_arr(vec![]))]),
+        /* 11 */ v_dict(vec![("D", v_arr(vec![v_ref(3), v_name("Fit")])), ("Subtype", v_name("Link"))]),
+        /* 12 */ v_dict(vec![("Font", v_dict(vec![("F1", v_ref(5))]))]),
+    ]
+}
+
+/// ... with 1-4 bindings replaced by (or added as) a value of a random kind
+fn mutated_skeleton(rng: &mut Rng) -> Value {
+    let mut objs = skeleton();
+    let n = objs.len();
+    for _ in 0..1 + rng.below(4) {
+        let me = 1 + rng.below(n);
+        let o = &mut objs[me - 1];
+        // descend into a nested dictionary now and then
+        let mut target: &mut Value = o;
+        for _ in 0..2 {
+            if rng.chance(1, 3) {
+                let nested: Vec<usize> = target["d"].as_array().unwrap().iter().enumerate()
+                    .filter(|(_, p)| p[1]["k"] == "dict").map(|(i, _)| i).collect();
+                if !nested.is_empty() {
+                    let i = *rng.pick(&nested);
+                    target = &mut target["d"][i][1];
+                }
+            }
+        }
+        let pairs = target["d"].as_array_mut().unwrap();
+        if !pairs.is_empty() && rng.chance(3, 4) {
+            let i = rng.below(pairs.len());
+            let key = pairs[i][0].as_str().unwrap().to_string();
+            if rng.chance(1, 8) {
+                pairs.remove(i);
+            } else {
+                pairs[i][1] = rand_val(rng, &key, n, me, 1);
+            }
+        } else {
+            let key = *rng.pick(KEYS);
+            if !pairs.iter().any(|p| p[0] == key) {
+                pairs.push(json!([key, rand_val(rng, key, n, me, 1)]));
+            }
+        }
+    }
+    json!({"objs": objs, "root": v_ref(1)})
+}
+
 fn gen(args: &[String]) {
     let seed = arg_u64(args, "--seed", 1);
     let n = arg_u64(args, "--n", 200);
     let mut out = NdjsonOut::create(&arg(args, "--out").unwrap());
     let mut rng = Rng::new(seed ^ 0xC13);
-    for _ in 0..n {
-        out.put(&json!({"doc": rand_doc(&mut rng)}));
+    for i in 0..n {
+        let doc = if i == 0 {
+            json!({"objs": skeleton(), "root": v_ref(1)})
+        } else if rng.chance(1, 2) {
+            mutated_skeleton(&mut rng)
+        } else {
+            rand_doc(&mut rng)
+        };
+        out.put(&json!({"doc": doc}));
     }
     out.finish();
 }
